@@ -35,8 +35,15 @@ fn verif_enum_blob_roundtrip() {
             Blob::new(Namespace::new_v0(&[1, k as u8 + 1]).unwrap(), vec![k as u8 + 1; l], if k % 2 == 1 { Some(signer.clone()) } else { None }, AppVersion::V3).unwrap()
         }).collect();
         let mut all: Vec<Share> = Vec::new();
-        let pad = Share::from_raw(&[&Namespace::PAY_FOR_BLOB.as_bytes()[..], &[1u8][..], &vec![0u8; 512 - 30][..]].concat());
-        for b in &blobs { if let Ok(p) = &pad { all.push(p.clone()); } all.extend(b.to_shares().unwrap()); }
+        // reserved-namespace shares as they occur in a square: a primary reserved sequence start (transactions /
+        // pay-for-blob), secondary reserved ones (tail padding: sequence start with length 0; another v255 namespace),
+        // continuation shares of both kinds, and a parity share
+        let mk = |ns: Namespace, info: u8, fill: u8| { let mut raw = vec![fill; 512]; raw[..29].copy_from_slice(ns.as_bytes()); raw[29] = info; if info & 1 == 1 { raw[30..34].copy_from_slice(&0u32.to_be_bytes()); } Share::from_raw(&raw) };
+        let reserved: Vec<Share> = [
+            mk(Namespace::PAY_FOR_BLOB, 1, 0), mk(Namespace::PAY_FOR_BLOB, 0, 0xcd), mk(Namespace::TRANSACTION, 1, 0),
+            mk(Namespace::TAIL_PADDING, 1, 0), mk(Namespace::TAIL_PADDING, 0, 0), mk(Namespace::const_v255(0x10), 1, 0xab),
+        ].into_iter().filter_map(|s| s.ok()).chain(Share::parity(&[0x5a; 512]).ok()).collect();
+        for (i, b) in blobs.iter().enumerate() { all.push(reserved[(i + base) % reserved.len()].clone()); all.extend(b.to_shares().unwrap()); all.push(reserved[(i + base + 3) % reserved.len()].clone()); }
         match Blob::reconstruct_all(all.iter(), AppVersion::V3) {
             Ok(back) => if back != blobs { println!("WITNESS C11: reconstruct_all over 4 blobs of {base}.. bytes returns {} blobs / different content", back.len()); panic!("witness"); },
             Err(e) => { println!("WITNESS C11: reconstruct_all over 4 blobs of {base}.. bytes failed: {e}"); panic!("witness"); }
